@@ -61,7 +61,7 @@ func init() {
 
 func runOne(t *testing.T, sc *Scenario, tape *rt.Tape, tier string, keepLog bool) *runResult {
 	res := &runResult{}
-	watchdogDeadline.Store(time.Now().Add(120 * time.Second).UnixNano())
+	watchdogDeadline.Store(time.Now().Add(600 * time.Second).UnixNano())
 	defer watchdogDeadline.Store(0)
 	func() {
 		defer func() {
